@@ -66,6 +66,9 @@ func (u *StampUpstream) Dial() (net.Conn, error) {
 	return a, nil
 }
 
+// ServeConn answers one accepted connection with the stamp protocol.
+func (u *StampUpstream) ServeConn(c net.Conn) { u.serve(c) }
+
 func (u *StampUpstream) serve(c net.Conn) {
 	defer c.Close()
 	br := bufio.NewReader(c)
